@@ -37,6 +37,23 @@ func TestModelRoundTrips(t *testing.T) {
 			t.Fatalf("compressed %d -> %d -> %d", n, a2, c2)
 		}
 	}
+	// closed form of B_k == defining recurrence; linear digit packing == Horner
+	for k := 1; k < 200; k++ {
+		closed := new(big.Int).Lsh(big.NewInt(1), uint(7*k))
+		closed.Sub(closed, big.NewInt(128)).Quo(closed, big.NewInt(127))
+		if closed.Cmp(vlqBaseSlow(k)) != 0 || vlqBase(k).Cmp(vlqBaseSlow(k)) != 0 {
+			t.Fatalf("B_%d: closed form %v, recurrence %v, vlqBase %v", k, closed, vlqBaseSlow(k), vlqBase(k))
+		}
+		run := make([]byte, k)
+		h := new(big.Int)
+		for i := range run {
+			run[i] = byte(37*i + 11*k)
+			h.Mul(h, big.NewInt(128)).Add(h, big.NewInt(int64(run[i]&0x7f)))
+		}
+		if groups7(run).Cmp(h) != 0 {
+			t.Fatalf("groups7(%x) = %v, Horner %v", run, groups7(run), h)
+		}
+	}
 	// unterminated and oversized quantities
 	v, n, term := ReadVLQBig([]byte{0xff, 0xff, 0xff, 0xff, 0xff, 0xff, 0xff, 0xff, 0xff, 0x7f})
 	if !term || n != 10 || v.Cmp(new(big.Int).Lsh(big.NewInt(1), 64)) < 0 {
